@@ -251,6 +251,15 @@ fn check_state(inst: &v1::Instance, init: &v1::Instance, rm: &RefModel, init_eva
     match sdk(|| inst.evaluate_samples(&samples).map_err(|e| format!("{e:#}"))) {
         Err(e) | Ok(Err(e)) => out.push(("evaluate_samples-error".into(), format!("evaluate_samples over the grid states failed: {e}"))),
         Ok(Ok((ss, _))) => {
+            // the id getter of the remaining-constraints sense follows the same flags
+            let want_ids: BTreeSet<u64> = complete
+                .iter()
+                .filter(|(_, _, b)| b.evaluated_constraints.iter().filter(|c| rm.active.contains(&c.id)).all(|c| feasible_by_rule(c.equality, c.evaluated_value).unwrap_or(false)))
+                .map(|(id, _, _)| *id)
+                .collect();
+            if ss.feasible_ids() != want_ids {
+                out.push(("sampled-feasible-ids".into(), format!("feasible_ids() = {:?}; the currently active constraints {:?} give {want_ids:?}", ss.feasible_ids(), rm.active)));
+            }
             for (id, st, base) in &complete {
                 let relaxed = base.evaluated_constraints.iter().filter(|c| rm.active.contains(&c.id)).all(|c| feasible_by_rule(c.equality, c.evaluated_value).unwrap_or(false));
                 let got = (ss.feasible.get(id).cloned(), ss.feasible_relaxed.get(id).cloned());
